@@ -263,7 +263,7 @@ def make_cases(ctx):
     if os.path.isdir(KNOWN_DIR):
         for f in sorted(os.listdir(KNOWN_DIR)):
             p = os.path.join(KNOWN_DIR, f)
-            if f.endswith('.opts') or not os.path.isfile(p) or '__' in f:
+            if f.endswith(('.opts', '.txt')) or not os.path.isfile(p) or '__' in f:
                 continue
             c = Case()
             c.idx, c.kind, c.name, c.origin = idx, 'known-witness', 'known/C13/' + f, 'known'
